@@ -622,7 +622,9 @@ func TestProp(t *testing.T) {
 	}
 	r.Rapid(t, "clauses", r.Pick(16000, 600000), func(t *rapid.T) {
 		c := genCase().Draw(t, "case")
+		stop := r.Slow(c)
 		st, err := check(c)
+		stop()
 		r.Label("sampled")
 		r.Eval(st.clauses)
 		for _, d := range st.discards {
